@@ -434,77 +434,80 @@ theorem writeAll_run {id : Nat} (r : AReq) (data : Bytes) (rest : List HOp) (pr 
 
 /-! ## `readAll` -/
 
-/-- What `handlerPoll` does for `readAll` on a quiet stream: it suspends on a transient `Pending` of
-the transport with the bytes read so far in its accumulator, or completes with exactly the rest of
-the stream content appended, the parser standing at the end mark.
+/-- What `handlerPoll` does for `readAll`: it suspends on a transient `Pending` of the transport with
+the bytes read so far in its accumulator, or completes with exactly the stream content, the parser
+standing at the end mark and every reply owed for the stream's noise generated (written or queued).
 
-Fuel: a `read` into the 64-byte buffer returns 64 bytes, or leaves the parser drained (then the next
+Fuel: a `read` into the 64-byte buffer returns 64 bytes, or leaves the parser idle (then the next
 one must first get at least one byte from the transport), or reaches the end of the stream; so the
-number of `read`s in one poll is at most `2·⌊|remC|/64⌋ + 2·|input| + d + 1` (`d = 0` if the
-parser is known to be drained). -/
-theorem readAll_run {K : RCtx} (rest : List HOp) (ws : List (Option Writer)) (pr : Bool) :
-    ∀ (N fuel : Nat) (r : AReq) (sub : HSub) (e : Run.Env) (remC : Bytes) (d : Nat),
-      2 * (remC.length / 64) + 2 * e.tr.input.length + d < N → N + 1 ≤ fuel →
-      (d = 0 → Drained r.sp ∨ remC = []) → Ben e.tr → RInv K r e.tr.input remC →
-      (∃ (r' : AReq) (acc' : Bytes) (e' : Run.Env) (remC' : Bytes),
+number of `read`s in one poll is at most `2·⌊|rest of the content|/64⌋ + 2·|input| + d + 1`
+(`d = 0` if the parser is known to be idle). -/
+theorem readAll_run {K : RCtx} (hK : K.OK) {L P : Bytes} (rest : List HOp) (ws : List (Option Writer))
+    (pr : Bool) :
+    ∀ (N fuel : Nat) (r : AReq) (sub : HSub) (e : Run.Env) (dO : Bytes) (d : Nat),
+      2 * ((K.C.length - (accOf sub).length) / 64) + 2 * e.tr.input.length + d < N → N + 1 ≤ fuel →
+      (d = 0 → Idle r.sp ∨ accOf sub = K.C) → Ben e.tr → RSt K L P r e.mutex e.tr (accOf sub) dO →
+      (∃ (r' : AReq) (acc' : Bytes) (e' : Run.Env) (dO' : Bytes),
           handlerPoll fuel r { ops := .readAll :: rest, sub := sub, writers := ws, propagate := pr } e =
             (r', { ops := .readAll :: rest, sub := .readAllAcc acc', writers := ws, propagate := pr }, e', .pending) ∧
-          acc' ++ remC' = accOf sub ++ remC ∧ RInv K r' e'.tr.input remC' ∧
-          e'.mutex = e.mutex ∧ e'.segs = e.segs ∧ TStep e.tr e'.tr ∧ e'.tr.wlog = e.tr.wlog ∧
+          RSt K L P r' e'.mutex e'.tr acc' dO' ∧ e'.segs = e.segs ∧ TStep e.tr e'.tr ∧
           e'.tr.woken = true ∧ ans e'.tr < ans e.tr) ∨
       (∃ (r' : AReq) (e' : Run.Env) (fuel' : Nat),
           handlerPoll fuel r { ops := .readAll :: rest, sub := sub, writers := ws, propagate := pr } e =
             handlerPoll fuel' r' { ops := rest, sub := .fresh, writers := ws, propagate := pr }
-              (e'.ev (rEvent (accOf sub ++ remC))) ∧
-          fuel ≤ fuel' + N ∧ RInv K r' e'.tr.input [] ∧
-          r'.sp.pay = 0 ∧ r'.sp.pad = 0 ∧ r'.sp.raw ++ e'.tr.input = K.E.tail ∧
-          e'.mutex = e.mutex ∧ e'.segs = e.segs ∧ TStep e.tr e'.tr ∧ e'.tr.wlog = e.tr.wlog) := by
+              (e'.ev (rEvent K.C)) ∧
+          fuel ≤ fuel' + N ∧ RSt K L P r' e'.mutex e'.tr K.C K.O ∧ r'.lock = .none ∧ e'.mutex = none ∧
+          r'.sp.pay = 0 ∧ r'.sp.pad = 0 ∧ r'.sp.raw ++ e'.tr.input = K.U ∧
+          (K.final = true → r'.writeable = true) ∧
+          e'.segs = e.segs ∧ TStep e.tr e'.tr) := by
   intro N
   induction N with
-  | zero => intro fuel r sub e remC d hN; omega
+  | zero => intro fuel r sub e dO d hN; omega
   | succ N ih =>
-    intro fuel r sub e remC d hN hf hd hb hi
+    intro fuel r sub e dO d hN hf hd hb hs
     obtain ⟨f, rfl⟩ : ∃ f, fuel = f + 1 := ⟨fuel - 1, by omega⟩
     rw [hp_readAll]
     rcases hpi : r.pollInput (some 64) e.mutex e.tr with ⟨r1, m1, t1, res⟩
-    obtain ⟨s1, s2, s3, s4, s5⟩ := pollInput_sim (by omega : 0 < 64) hb hi hpi
-    subst s3
+    obtain ⟨s1, s4, s5⟩ := pollInput_sim hK (by omega : 0 < 64) hb hs hpi
     cases res with
     | pending =>
       left
-      exact ⟨r1, accOf sub, { e with mutex := e.mutex, tr := t1 }, remC, rfl, rfl, s4.1, rfl, rfl, s1, s2,
-        s4.2.1, s4.2.2⟩
+      obtain ⟨⟨dO', hs'⟩, hw, ha⟩ := s4
+      exact ⟨r1, accOf sub, { e with mutex := m1, tr := t1 }, dO', rfl, hs', rfl, s1, hw, ha⟩
     | err x => exact s4.elim
     | panic x => exact s4.elim
     | ready k dd =>
-      obtain ⟨hk, remC', hdd, hi', hor, hfull⟩ := s4
+      obtain ⟨hk, dO', hs', hlk, hm1, hor, hfull, hwr⟩ := s4
+      subst hm1
       cases k with
       | zero =>
         right
         have hd0 : dd = [] := List.length_eq_zero_iff.1 hk.symm
         subst hd0
-        rcases hor with hor | ⟨a1, a2, a3, a4⟩
+        rcases hor with hor | ⟨a1, a2, a3, a4, a5⟩
         · omega
-        · simp only [List.nil_append] at hdd
-          subst hdd
-          subst a1
-          refine ⟨r1, { e with mutex := e.mutex, tr := t1 }, f, ?_, by omega, hi', a2, a3, a4, rfl, rfl, s1, s2⟩
-          simp only [List.append_nil]
+        · simp only [List.append_nil] at a1 hs'
+          refine ⟨r1, { e with mutex := none, tr := t1 }, f, ?_, by omega, ?_, hlk, rfl, a3, a4, a5, hwr, rfl, s1⟩
+          · simp only [a1]
+          · rw [← a1, ← a2]; exact hs'
       | succ k' =>
         simp only
-        have hlenC := congrArg List.length hdd
-        simp only [List.length_append] at hlenC
+        obtain ⟨G1, hi1⟩ := hs'.inv
+        have hnow := (hi1.now hK).1
+        have hlenC : (accOf sub).length + (k' + 1) ≤ K.C.length := by
+          have := congrArg List.length hnow
+          simp only [List.length_append] at this
+          omega
         have hinle := s1.tle.input_len
-        -- the new drained flag and the decrease of the measure
-        have hdec : ∃ d1, (d1 = 0 → Drained r1.sp ∨ remC' = []) ∧
-            2 * (remC'.length / 64) + 2 * t1.input.length + d1 < N := by
+        have hdec : ∃ d1, (d1 = 0 → Idle r1.sp ∨ accOf sub ++ dd = K.C) ∧
+            2 * ((K.C.length - (accOf sub ++ dd).length) / 64) + 2 * t1.input.length + d1 < N := by
           have hin' : d = 0 → t1.input.length < e.tr.input.length := by
             intro h0
-            rcases hd h0 with hdr | hnil
+            rcases hd h0 with hdr | hfin
             · exact s5 hdr _ _ rfl
-            · have h00 : remC.length = 0 := by rw [hnil]; rfl
-              omega
-          rcases hfull with h64 | hdr | ⟨hnil, _⟩
+            · rw [hfin] at hlenC; omega
+          simp only [List.length_append]
+          rcases hfull with h64 | hdr | ⟨hfin, _⟩
           · refine ⟨1, fun h => by omega, ?_⟩
             by_cases h0 : d = 0
             · have := hin' h0; omega
@@ -513,30 +516,31 @@ theorem readAll_run {K : RCtx} (rest : List HOp) (ws : List (Option Writer)) (pr
             by_cases h0 : d = 0
             · have := hin' h0; omega
             · omega
-          · refine ⟨0, fun _ => Or.inr hnil, ?_⟩
+          · refine ⟨0, fun _ => Or.inr hfin, ?_⟩
             by_cases h0 : d = 0
             · have := hin' h0; omega
             · omega
         obtain ⟨d1, hd1, hm1⟩ := hdec
-        rcases ih f r1 (.readAllAcc (accOf sub ++ dd)) { e with mutex := e.mutex, tr := t1 } remC' d1 hm1
-            (by omega) hd1 (hb.step s1) hi' with
-          ⟨r2, acc2, e2, remC2, d1', d2, d3, d4, d5, d6, d7, d8, d9⟩ |
-          ⟨r2, e2, f2, d1', d2, d3, d4, d5, d6, d7, d8, d9, d10⟩
+        rcases ih f r1 (.readAllAcc (accOf sub ++ dd)) { e with mutex := none, tr := t1 } dO' d1 hm1
+            (by omega) hd1 (hb.step s1) hs' with
+          ⟨r2, acc2, e2, dO2, d1', d3, d5, d6, d8, d9⟩ |
+          ⟨r2, e2, f2, d1', d2, d3, d4, d5, d6, d7, d8, dw, d9, d10⟩
         · left
-          refine ⟨r2, acc2, e2, remC2, d1', ?_, d3, d4, d5, s1.trans d6, d7.trans s2, d8, ?_⟩
-          · rw [d2]; simp only [accOf, List.append_assoc, hdd]
-          · have := s1.ans_le
-            have d9' : ans e2.tr < ans t1 := d9
-            omega
+          refine ⟨r2, acc2, e2, dO2, d1', d3, d5, s1.trans d6, d8, ?_⟩
+          have := s1.ans_le
+          have d9' : ans e2.tr < ans t1 := d9
+          omega
         · right
-          refine ⟨r2, e2, f2, ?_, by omega, d3, d4, d5, d6, d7, d8, s1.trans d9, d10.trans s2⟩
-          rw [d1']; simp only [accOf, List.append_assoc, hdd]
+          exact ⟨r2, e2, f2, d1', by omega, d3, d4, d5, d6, d7, d8, dw, d9, s1.trans d10⟩
 
 /-! ## One poll of the canonical handler -/
 
-/-- the canonical handler -/
+/-- the canonical handler of a Responder -/
 def script (data : Bytes) (st : ExitStatus) : List HOp :=
   [.readAll, .open_ 6, .writeAll 0 data, .dropW 0, .ret st]
+
+/-- … from the opening of the Stdout writer on (the canonical handler of an Authorizer) -/
+def oscript (data : Bytes) (st : ExitStatus) : List HOp := [.open_ 6, .writeAll 0 data, .dropW 0, .ret st]
 
 /-- … from its `write_all` on -/
 def wscript (data : Bytes) (st : ExitStatus) : List HOp := [.writeAll 0 data, .dropW 0, .ret st]
@@ -545,146 +549,361 @@ theorem TStep.mem_events {t t' : Transport} (h : TStep t t') {s : String} (hs : 
   obtain ⟨n, hn, _⟩ := h.tle.ev
   rw [hn]; exact List.mem_append_left _ hs
 
-/-- The request stands at the end mark of its (quiet) stream: everything was delivered, nothing is
-queued, the terminating record is still unparsed. -/
-structure REnd (K : RCtx) (r : AReq) (input : Bytes) : Prop where
-  inv : RInv K r input []
+/-- What the write and close stages know about the request: the request itself, the buffer size,
+`max_conns`, and the bytes that are still unread when the handler is done with its input (`U`: the
+terminating record of the last input stream; nothing for an Authorizer). -/
+structure ECtx where
+  rq : Request
+  cap : Nat
+  mc : Nat
+  U : Bytes
+
+def RCtx.ectx (K : RCtx) : ECtx := ⟨K.rq, K.cap, K.E.mc, K.U⟩
+
+/-- The request stands at the end of its input: writeable, lock free, at a record boundary, `U`
+unparsed. -/
+structure REnd (N : ECtx) (r : AReq) (input : Bytes) : Prop where
+  wr : r.writeable = true
+  lock : r.lock = .none
   pay : r.sp.pay = 0
   pad : r.sp.pad = 0
-  wire : r.sp.raw ++ input = K.E.tail
+  wire : r.sp.raw ++ input = N.U
+  req : r.sp.request = N.rq
+  capK : r.sp.cap = N.cap
+  mcK : r.sp.maxConns = N.mc
+  rawlen : r.sp.raw.length ≤ N.cap
+  sinv : SInv r.sp
 
-/-- handler suspended in (or about to start) `readAll` -/
-structure HRead (K : RCtx) (content data : Bytes) (st : ExitStatus) (L1 : Bytes)
+/-- the end of the last input stream -/
+theorem REnd.of_read {K : RCtx} {r : AReq} {G input : Bytes} (hi : RInv K r G input K.C K.O)
+    (hw : r.writeable = true) (hl : r.lock = .none) (hpay : r.sp.pay = 0) (hpad : r.sp.pad = 0)
+    (hwire : r.sp.raw ++ input = K.U) : REnd K.ectx r input := by
+  refine ⟨hw, hl, hpay, hpad, hwire, hi.req, hi.capK, hi.mt.mc, ?_, hi.sinv⟩
+  have := hi.sinv.1
+  have hc := hi.capK
+  simp only [Str.Parser.freeStart] at this
+  show r.sp.raw.length ≤ K.cap
+  omega
+
+/-- What is fixed during the write stage: the data, the status, the log `L1` when the handler
+started, all replies `Otot` owed for noise inside the input streams, the `R=` events of its reads. -/
+structure WCtx where
+  N : ECtx
+  data : Bytes
+  st : ExitStatus
+  L1 : Bytes
+  Otot : Bytes
+  revs : List String
+
+/-- handler suspended in (or about to start) `readAll` of the stream described by `K`; `rest` = the
+ops after it; `L` = the write log when the handler started, `P` = replies generated for earlier
+streams -/
+structure HRead (K : RCtx) (rest : List HOp) (L P : Bytes)
     (r : AReq) (h : HState) (e : Run.Env) : Prop where
-  ops : h.ops = script data st
+  ops : h.ops = .readAll :: rest
   ws : h.writers = []
   pr : h.propagate = true
-  rem : ∃ remC, accOf h.sub ++ remC = content ∧ RInv K r e.tr.input remC
-  mtx : e.mutex = none
-  log : e.tr.wlog = L1
+  rem : ∃ dO, RSt K L P r e.mutex e.tr (accOf h.sub) dO
 
-/-- handler suspended in (or about to start) `writeAll` -/
-structure HWrite (K : RCtx) (content data : Bytes) (st : ExitStatus) (L1 : Bytes)
-    (r : AReq) (h : HState) (e : Run.Env) : Prop where
-  ops : h.ops = wscript data st
+/-- handler suspended in (or about to start) `writeAll`; `O1` = the stream-noise replies written
+before the handler's output (the rest is still queued in the parser) -/
+structure HWrite (W : WCtx) (O1 : Bytes) (r : AReq) (h : HState) (e : Run.Env) : Prop where
+  ops : h.ops = wscript W.data W.st
   pr : h.propagate = true
-  wr : ∃ w L sent, h.writers = [some w] ∧ WSt K.E.id w e.mutex (restOf h.sub data) sent ∧
+  wr : ∃ w L sent, h.writers = [some w] ∧ WSt W.N.rq.id w e.mutex (restOf h.sub W.data) sent ∧
       e.tr.wlog = L ++ sent ∧
-      L ++ streamRecords 6 K.E.id (restOf h.sub data) = L1 ++ streamRecords 6 K.E.id data
-  len : (restOf h.sub data).length ≤ data.length
-  fin : REnd K r e.tr.input
-  ev : rEvent content ∈ e.tr.events
+      L ++ streamRecords 6 W.N.rq.id (restOf h.sub W.data) = (W.L1 ++ O1) ++ streamRecords 6 W.N.rq.id W.data
+  len : (restOf h.sub W.data).length ≤ W.data.length
+  fin : REnd W.N r e.tr.input
+  out : O1 ++ r.sp.output = W.Otot
+  ev : ∀ s ∈ W.revs, s ∈ e.tr.events
 
 /-- the handler returned `Ok(st)` -/
-structure HDone (K : RCtx) (content data : Bytes) (L1 : Bytes)
-    (r : AReq) (h : HState) (e : Run.Env) : Prop where
+structure HDone (W : WCtx) (O1 : Bytes) (r : AReq) (h : HState) (e : Run.Env) : Prop where
   ws : h.writers = [none]
   mtx : e.mutex = none
-  log : e.tr.wlog = L1 ++ streamRecords 6 K.E.id data
-  fin : REnd K r e.tr.input
-  ev : rEvent content ∈ e.tr.events
+  log : e.tr.wlog = (W.L1 ++ O1) ++ streamRecords 6 W.N.rq.id W.data
+  fin : REnd W.N r e.tr.input
+  out : O1 ++ r.sp.output = W.Otot
+  ev : ∀ s ∈ W.revs, s ∈ e.tr.events
 
-/-- Result of one poll of the handler. -/
-def HOut (K : RCtx) (content data : Bytes) (st : ExitStatus) (L1 : Bytes) (e : Run.Env)
+/-- Result of one poll of the handler; `Rd` = the states in which it may be suspended in a read. -/
+def HOut (W : WCtx) (Rd : AReq → HState → Run.Env → Prop) (e : Run.Env)
     (out : AReq × HState × Run.Env × HRes) : Prop :=
   TStep e.tr out.2.2.1.tr ∧ out.2.2.1.segs = e.segs ∧
   ((out.2.2.2 = .pending ∧ out.2.2.1.tr.woken = true ∧ ans out.2.2.1.tr < ans e.tr ∧
-      (HRead K content data st L1 out.1 out.2.1 out.2.2.1 ∨ HWrite K content data st L1 out.1 out.2.1 out.2.2.1)) ∨
-   (out.2.2.2 = .done (.ok st) ∧ HDone K content data L1 out.1 out.2.1 out.2.2.1))
+      (Rd out.1 out.2.1 out.2.2.1 ∨ ∃ O1, HWrite W O1 out.1 out.2.1 out.2.2.1)) ∨
+   (out.2.2.2 = .done (.ok W.st) ∧ ∃ O1, HDone W O1 out.1 out.2.1 out.2.2.1))
 
-theorem REnd.step {K : RCtx} {r : AReq} {t t' : Transport} (h : REnd K r t.input)
-    (hi : t'.input = t.input) : REnd K r t'.input := by rw [hi]; exact h
+theorem REnd.step {N : ECtx} {r : AReq} {t t' : Transport} (h : REnd N r t.input)
+    (hi : t'.input = t.input) : REnd N r t'.input := by rw [hi]; exact h
 
-theorem write_phase {K : RCtx} {content data : Bytes} {st : ExitStatus} {L1 : Bytes}
-    {r : AReq} {h : HState} {e : Run.Env} (hw : HWrite K content data st L1 r h e) (hb : Ben e.tr)
-    {fuel : Nat} (hf : wcost data.length + 3 ≤ fuel) :
-    HOut K content data st L1 e (handlerPoll fuel r h e) := by
+theorem write_phase {W : WCtx} {Rd : AReq → HState → Run.Env → Prop} {O1 : Bytes}
+    {r : AReq} {h : HState} {e : Run.Env} (hw : HWrite W O1 r h e) (hb : Ben e.tr)
+    {fuel : Nat} (hf : wcost W.data.length + 3 ≤ fuel) :
+    HOut W Rd e (handlerPoll fuel r h e) := by
   obtain ⟨ops, sub, ws, pr⟩ := h
-  obtain ⟨hops, hpr, ⟨w, L, sent, hws, hst, hlog, hL⟩, hlen, hfin, hev⟩ := hw
+  obtain ⟨hops, hpr, ⟨w, L, sent, hws, hst, hlog, hL⟩, hlen, hfin, hout, hev⟩ := hw
   simp only at hops hpr hws hst hL hlen
   subst hops hpr hws
-  have hfu : wcost (restOf sub data).length + 3 ≤ fuel := by
+  have hfu : wcost (restOf sub W.data).length + 3 ≤ fuel := by
     unfold wcost at hf ⊢
     omega
-  · rcases writeAll_run (id := K.E.id) r data [.dropW 0, .ret st] true (restOf sub data).length fuel sub w e L sent
-        (Nat.le_refl _) (by omega) hb hst hlog with
-      ⟨w', e', rd', L', sent', d1, d2, d3, d4, d5, d6, d7, d8, d9, d10, d11⟩ |
-      ⟨w', e', f', d1, d2, d3, d4, d5, d6, d7, d8, d9⟩
-    · show HOut K content data st L1 e (handlerPoll fuel r
-        { ops := wscript data st, sub := sub, writers := [some w], propagate := true } e)
-      rw [show wscript data st = .writeAll 0 data :: [.dropW 0, .ret st] from rfl, d1]
-      refine ⟨d7, d9, Or.inl ⟨rfl, d10, d11, Or.inr ⟨rfl, rfl, ⟨w', L', sent', rfl, d5, d3, ?_⟩, ?_, ?_, d7.mem_events hev⟩⟩⟩
-      · show L' ++ streamRecords 6 K.E.id rd' = _
-        rw [d4, hL]
-      · show rd'.length ≤ data.length
-        omega
-      · exact hfin.step d8
-    · show HOut K content data st L1 e (handlerPoll fuel r
-        { ops := wscript data st, sub := sub, writers := [some w], propagate := true } e)
-      rw [show wscript data st = .writeAll 0 data :: [.dropW 0, .ret st] from rfl, d1]
-      obtain ⟨f2, rfl⟩ : ∃ f2, f' = f2 + 2 := ⟨f' - 2, by omega⟩
-      rw [hp_dropW]
-      simp only [List.getD_cons_zero, List.set_cons_zero]
-      rw [hp_ret]
-      have hs2 : TStep e.tr (e'.tr.ev "W=ok") := d7.trans (TStep.ev _ (by decide))
-      refine ⟨hs2, d9, Or.inr ⟨rfl, ⟨rfl, ?_, ?_, ?_, hs2.mem_events hev⟩⟩⟩
-      · show lockDrop w'.lock (e'.ev "W=ok").mutex = none
-        rw [d5]; exact d6
-      · show (e'.tr.ev "W=ok").wlog = _
-        rw [Transport.ev_wlog, d3, hL]
-      · exact hfin.step d8
+  rcases writeAll_run (id := W.N.rq.id) r W.data [.dropW 0, .ret W.st] true (restOf sub W.data).length fuel sub w e
+      L sent (Nat.le_refl _) (by omega) hb hst hlog with
+    ⟨w', e', rd', L', sent', d1, d2, d3, d4, d5, d6, d7, d8, d9, d10, d11⟩ |
+    ⟨w', e', f', d1, d2, d3, d4, d5, d6, d7, d8, d9⟩
+  · show HOut W Rd e (handlerPoll fuel r
+      { ops := wscript W.data W.st, sub := sub, writers := [some w], propagate := true } e)
+    rw [show wscript W.data W.st = .writeAll 0 W.data :: [.dropW 0, .ret W.st] from rfl, d1]
+    refine ⟨d7, d9, Or.inl ⟨rfl, d10, d11, Or.inr ⟨O1, rfl, rfl, ⟨w', L', sent', rfl, d5, d3, ?_⟩, ?_, ?_,
+      hout, fun s hs => d7.mem_events (hev s hs)⟩⟩⟩
+    · show L' ++ streamRecords 6 W.N.rq.id rd' = _
+      rw [d4, hL]
+    · show rd'.length ≤ W.data.length
+      omega
+    · exact hfin.step d8
+  · show HOut W Rd e (handlerPoll fuel r
+      { ops := wscript W.data W.st, sub := sub, writers := [some w], propagate := true } e)
+    rw [show wscript W.data W.st = .writeAll 0 W.data :: [.dropW 0, .ret W.st] from rfl, d1]
+    obtain ⟨f2, rfl⟩ : ∃ f2, f' = f2 + 2 := ⟨f' - 2, by omega⟩
+    rw [hp_dropW]
+    simp only [List.getD_cons_zero, List.set_cons_zero]
+    rw [hp_ret]
+    have hs2 : TStep e.tr (e'.tr.ev "W=ok") := d7.trans (TStep.ev _ (by decide))
+    refine ⟨hs2, d9, Or.inr ⟨rfl, O1, ⟨rfl, ?_, ?_, ?_, hout, fun s hs => hs2.mem_events (hev s hs)⟩⟩⟩
+    · show lockDrop w'.lock (e'.ev "W=ok").mutex = none
+      rw [d5]; exact d6
+    · show (e'.tr.ev "W=ok").wlog = _
+      rw [Transport.ev_wlog, d3, hL]
+    · exact hfin.step d8
 
-theorem read_phase {K : RCtx} {content data : Bytes} {st : ExitStatus} {L1 : Bytes}
-    {r : AReq} {h : HState} {e : Run.Env} (hr : HRead K content data st L1 r h e) (hb : Ben e.tr)
-    {fuel : Nat} (hf : K.cap / 32 + 3 * e.tr.input.length + wcost data.length + 12 ≤ fuel) :
-    HOut K content data st L1 e (handlerPoll fuel r h e) := by
-  obtain ⟨ops, sub, ws, pr⟩ := h
-  obtain ⟨hops, hws, hpr, ⟨remC, hacc, hi⟩, hm, hlog⟩ := hr
-  simp only at hops hpr hws hacc
-  subst hops hpr hws
-  have hrl := hi.remC_le
-  show HOut K content data st L1 e (handlerPoll fuel r
-    { ops := .readAll :: [.open_ 6, .writeAll 0 data, .dropW 0, .ret st], sub := sub, writers := [],
+/-- The handler opens its Stdout writer (the request being writeable, at the end of its input, the
+mutex free) and goes on to `writeAll`. -/
+theorem open_phase {W : WCtx} {Rd : AReq → HState → Run.Env → Prop} {O1 : Bytes} {r : AReq} {e : Run.Env}
+    (hfin : REnd W.N r e.tr.input) (hm : e.mutex = none) (hlog : e.tr.wlog = W.L1 ++ O1)
+    (hout : O1 ++ r.sp.output = W.Otot) (hev : ∀ s ∈ W.revs, s ∈ e.tr.events) (hb : Ben e.tr)
+    {fuel : Nat} (hf : wcost W.data.length + 4 ≤ fuel) :
+    HOut W Rd e (handlerPoll fuel r { ops := oscript W.data W.st, propagate := true } e) := by
+  obtain ⟨f2, rfl⟩ : ∃ f2, fuel = f2 + 1 := ⟨fuel - 1, by omega⟩
+  show HOut W Rd e (handlerPoll (f2 + 1) r
+    { ops := .open_ 6 :: [.writeAll 0 W.data, .dropW 0, .ret W.st], sub := .fresh, writers := [],
       propagate := true } e)
-  rcases readAll_run (K := K) [.open_ 6, .writeAll 0 data, .dropW 0, .ret st] [] true
-      (2 * (remC.length / 64) + 2 * e.tr.input.length + 2) fuel r sub e
-      remC 1 (by omega) (by omega) (fun h => by omega) hb hi with
-    ⟨r', acc', e', remC', d1, d2, d3, d4, d5, d6, d7, d8, d9⟩ |
-    ⟨r', e', f', d1, d2, d3, d4, d5, d6, d7, d8, d9, d10⟩
+  rw [hp_open]
+  have hwr : r.writeable = true := hfin.wr
+  rw [if_neg (by simp [hwr, outputStreams, RT.stdout, RT.stderr])]
+  have hstr : (s!"o=w{([] : List (Option Writer)).length}" : String) = "o=w0" := by decide
+  rw [hstr]
+  show HOut W Rd e (handlerPoll f2 r
+      { ops := wscript W.data W.st, sub := .fresh,
+        writers := [] ++ [some { rtype := 6, id := r.sp.request.id }], propagate := true }
+      (e.ev "o=w0"))
+  have hs1 : TStep e.tr (e.ev "o=w0").tr := TStep.ev _ (by decide)
+  have hid' : r.sp.request.id = W.N.rq.id := by rw [hfin.req]
+  have hw : HWrite W O1 r
+      { ops := wscript W.data W.st, sub := .fresh,
+        writers := [] ++ [some { rtype := 6, id := r.sp.request.id }], propagate := true }
+      (e.ev "o=w0") := by
+    refine ⟨rfl, rfl, ⟨{ rtype := 6, id := r.sp.request.id }, W.L1 ++ O1, [], rfl,
+      ⟨rfl, hid', Or.inl ⟨rfl, rfl, hm, rfl⟩⟩, ?_, rfl⟩, Nat.le_refl _, hfin, hout, ?_⟩
+    · show e.tr.wlog = (W.L1 ++ O1) ++ []
+      rw [hlog, List.append_nil]
+    · intro s hs
+      show s ∈ e.tr.events ++ ["o=w0"]
+      exact List.mem_append_left _ (hev s hs)
+  have hb2 : Ben (e.ev "o=w0").tr := hb.step hs1
+  obtain ⟨q1, q2, q3⟩ := write_phase (Rd := Rd) hw hb2 (fuel := f2) (by omega)
+  refine ⟨hs1.trans q1, q2, ?_⟩
+  rcases q3 with ⟨a1, a2, a3, a4⟩ | a
+  · exact Or.inl ⟨a1, a2, by have := hs1.ans_le; omega, a4⟩
+  · exact Or.inr a
+
+/-- The canonical Responder handler suspended in (or starting) its `readAll`. -/
+theorem read_phase {K : RCtx} (hK : K.OK) (hfinal : K.final = true) {W : WCtx} (hN : W.N = K.ectx)
+    (hOt : W.Otot = K.O) (hrevs : W.revs = [rEvent K.C])
+    {r : AReq} {h : HState} {e : Run.Env} (hr : HRead K (oscript W.data W.st) W.L1 [] r h e) (hb : Ben e.tr)
+    {fuel : Nat} (hf : K.cap / 32 + 3 * e.tr.input.length + wcost W.data.length + 12 ≤ fuel) :
+    HOut W (HRead K (oscript W.data W.st) W.L1 []) e (handlerPoll fuel r h e) := by
+  obtain ⟨ops, sub, ws, pr⟩ := h
+  obtain ⟨hops, hws, hpr, ⟨dO, hs⟩⟩ := hr
+  simp only at hops hpr hws hs
+  subst hops hpr hws
+  obtain ⟨G0, hi0⟩ := hs.inv
+  have hrl := hi0.rem_le hK
+  rcases readAll_run hK (L := W.L1) (P := []) (oscript W.data W.st) [] true
+      (2 * ((K.C.length - (accOf sub).length) / 64) + 2 * e.tr.input.length + 2) fuel r sub e dO 1
+      (by omega) (by omega) (fun h => by omega) hb hs with
+    ⟨r', acc', e', dO', d1, d3, d5, d6, d8, d9⟩ |
+    ⟨r', e', f', d1, d2, d3, dl, dm, d4, d5, d6, dw, d8, d9⟩
   · rw [d1]
-    exact ⟨d6, d5, Or.inl ⟨rfl, d8, d9, Or.inl ⟨rfl, rfl, rfl, ⟨remC', d2.trans hacc, d3⟩,
-      d4.trans hm, d7.trans hlog⟩⟩⟩
-  · rw [d1, hacc]
-    obtain ⟨f2, rfl⟩ : ∃ f2, f' = f2 + 1 := ⟨f' - 1, by omega⟩
-    rw [hp_open]
-    have hwr : r'.writeable = true := d3.wr
-    rw [if_neg (by simp [hwr, outputStreams, RT.stdout, RT.stderr])]
-    have hstr : (s!"o=w{([] : List (Option Writer)).length}" : String) = "o=w0" := by decide
-    rw [hstr]
-    show HOut K content data st L1 e (handlerPoll f2 r'
-        { ops := wscript data st, sub := .fresh,
-          writers := [] ++ [some { rtype := 6, id := r'.sp.request.id }], propagate := true }
-        ((e'.ev (rEvent content)).ev "o=w0"))
-    have hs1 : TStep e.tr ((e'.ev (rEvent content)).ev "o=w0").tr :=
-      (d9.trans (TStep.ev _ (isHS_rEvent _))).trans (TStep.ev _ (by decide))
-    have hid' : r'.sp.request.id = K.E.id := d3.sim.id
-    have hw : HWrite K content data st L1 r'
-        { ops := wscript data st, sub := .fresh,
-          writers := [] ++ [some { rtype := 6, id := r'.sp.request.id }], propagate := true }
-        ((e'.ev (rEvent content)).ev "o=w0") := by
-      refine ⟨rfl, rfl, ⟨{ rtype := 6, id := r'.sp.request.id }, L1, [], rfl,
-        ⟨rfl, hid', Or.inl ⟨rfl, rfl, ?_, rfl⟩⟩, ?_, rfl⟩, Nat.le_refl _, ⟨d3, d4, d5, d6⟩, ?_⟩
-      · show e'.mutex = none
-        rw [d7]; exact hm
-      · show e'.tr.wlog = L1 ++ []
-        rw [d10, hlog, List.append_nil]
-      · show rEvent content ∈ (e'.tr.events ++ [rEvent content]) ++ ["o=w0"]
-        simp
-    have hb2 : Ben ((e'.ev (rEvent content)).ev "o=w0").tr := hb.step hs1
-    obtain ⟨q1, q2, q3⟩ := write_phase hw hb2 (fuel := f2) (by omega)
+    exact ⟨d6, d5, Or.inl ⟨rfl, d8, d9, Or.inl ⟨rfl, rfl, rfl, ⟨dO', d3⟩⟩⟩⟩
+  · rw [d1]
+    obtain ⟨G1, hi1⟩ := d3.inv
+    obtain ⟨O1, hlog1, hlog2⟩ := d3.log
+    have hs1 : TStep e.tr (e'.ev (rEvent K.C)).tr := d9.trans (TStep.ev _ (isHS_rEvent _))
+    have hfin : REnd W.N r' (e'.ev (rEvent K.C)).tr.input := by
+      rw [hN]
+      exact REnd.of_read hi1 (dw hfinal) dl d4 d5 d6
+    obtain ⟨q1, q2, q3⟩ := open_phase (W := W) (Rd := HRead K (oscript W.data W.st) W.L1 []) (O1 := O1) hfin
+      (show (e'.ev (rEvent K.C)).mutex = none from dm)
+      (show (e'.tr.ev (rEvent K.C)).wlog = W.L1 ++ O1 by rw [Transport.ev_wlog, hlog1])
+      (by rw [hOt]; simpa using hlog2)
+      (by intro s hs
+          rw [hrevs, List.mem_singleton] at hs
+          subst hs
+          show rEvent K.C ∈ e'.tr.events ++ [rEvent K.C]
+          simp)
+      (hb.step hs1) (fuel := f') (by omega)
     refine ⟨hs1.trans q1, q2.trans d8, ?_⟩
     rcases q3 with ⟨a1, a2, a3, a4⟩ | a
     · exact Or.inl ⟨a1, a2, by have := hs1.ans_le; omega, a4⟩
     · exact Or.inr a
+
+/-! ## The Filter: Stdin, then `set_stream(Data)`, then Data -/
+
+theorem hp_setStream (fuel : Nat) (r : AReq) (t : Nat) (rest : List HOp) (sub : HSub)
+    (ws : List (Option Writer)) (pr : Bool) (e : Run.Env) :
+    handlerPoll (fuel + 1) r { ops := .setStream t :: rest, sub := sub, writers := ws, propagate := pr } e =
+      match r.setStream t with
+      | some r => handlerPoll fuel r { ops := rest, sub := .fresh, writers := ws, propagate := pr } (e.ev "s=ok")
+      | none => (r, { ops := .setStream t :: rest, sub := sub, writers := ws, propagate := pr }, e,
+          .panic "async_io:292 streams should follow the order given by Role::input_streams") := by
+  simp only [handlerPoll]
+  cases r.setStream t <;> rfl
+
+/-- the canonical handler of a Filter -/
+def fscript (data : Bytes) (st : ExitStatus) : List HOp :=
+  [.readAll, .setStream 8, .readAll, .open_ 6, .writeAll 0 data, .dropW 0, .ret st]
+
+/-- `K2` describes the Data stream that follows the Stdin stream `K1` of a Filter request: same
+request, same buffer; its wire is what `K1` left unread. -/
+structure Follows (K1 K2 : RCtx) : Prop where
+  e1 : K1.E = ⟨K1.E.id, 3, 5, K1.E.mc⟩
+  e2 : K2.E = ⟨K1.E.id, 3, 8, K1.E.mc⟩
+  rq : K2.rq = K1.rq
+  cap : K2.cap = K1.cap
+  X : K2.X = K1.U
+
+/-- `set_stream(Data)` at the end of Stdin: the request is ready to read the Data stream. -/
+theorem switch_stream {K1 K2 : RCtx} (hf : Follows K1 K2) {L P : Bytes} {r : AReq} {m : MutexSt} {t : Transport}
+    (hs : RSt K1 L P r m t K1.C K1.O) (hpay : r.sp.pay = 0) (hpad : r.sp.pad = 0)
+    (hwire : r.sp.raw ++ t.input = K1.U) :
+    ∃ r', r.setStream 8 = some r' ∧ r'.lock = r.lock ∧ RSt K2 L (P ++ K1.O) r' m t [] [] := by
+  obtain ⟨⟨G, hi⟩, lk, mx, ⟨O1, l1, l2⟩⟩ := hs
+  have hrole : r.sp.request.role = 3 := by rw [hi.mt.role, hf.e1]
+  have hstrm : r.sp.stream = some 5 := by rw [hi.mt.strm, hf.e1]
+  have hset : r.sp.setStream (some 8) = .ok (r.sp.switchTo (some 8)) := by
+    rw [setStream_some_input r.sp (s := 8) rfl (fun e he => by rw [hstrm] at he; cases he; rfl)]
+    rw [if_neg (by rw [hstrm]; decide), if_pos (by rw [hrole, hstrm]; decide)]
+  refine ⟨{ r with sp := r.sp.switchTo (some 8) }, by simp [AReq.setStream, hset], rfl, ?_⟩
+  have hsinv : SInv (r.sp.switchTo (some 8)) :=
+    SInv_switchTo hi.sinv (Or.inr ⟨8, rfl, by rw [hrole]; decide⟩)
+  have hmt : Match K2.E (r.sp.switchTo (some 8)) := by
+    rw [hf.e2]
+    exact ⟨hi.mt.id, hrole, rfl, hi.mt.mc, by show 8 ∈ inputStreams 3; decide⟩
+  refine ⟨⟨r.sp.raw, hmt, hsinv, by rw [hf.rq]; exact hi.req, by rw [hf.cap]; exact hi.capK, rfl,
+    by rw [hf.X]; exact hwire, fun x => ?_⟩, ?_, mx, ⟨O1, l1, by rw [List.append_nil]; exact l2⟩⟩
+  · show refWire K2.E (r.sp.raw ++ x) = (Rem K2.E (r.sp.switchTo (some 8)) x).pre [] []
+    have hp : (r.sp.switchTo (some 8)).pay = 0 := hpay
+    have hd : (r.sp.switchTo (some 8)).pad = 0 := hpad
+    unfold Rem
+    rw [hp, hd]
+    show _ = ref K2.E _ 0 0 (r.sp.raw ++ x)
+    rw [ref_eq_refWire]
+  · exact ⟨lk.1, fun h => lk.2 h⟩
+
+/-- the Filter handler suspended in its first or in its second `readAll` -/
+def FRd (K1 K2 : RCtx) (W : WCtx) (r : AReq) (h : HState) (e : Run.Env) : Prop :=
+  HRead K1 (.setStream 8 :: .readAll :: oscript W.data W.st) W.L1 [] r h e ∨
+    (HRead K2 (oscript W.data W.st) W.L1 K1.O r h e ∧ rEvent K1.C ∈ e.tr.events)
+
+/-- The canonical Filter handler, suspended in (or starting) one of its two `readAll`s. -/
+theorem read_phaseF {K1 K2 : RCtx} (hK1 : K1.OK) (hK2 : K2.OK) (hf : Follows K1 K2) {W : WCtx}
+    (hN : W.N = K2.ectx) (hOt : W.Otot = K1.O ++ K2.O) (hrevs : W.revs = [rEvent K1.C, rEvent K2.C])
+    {r : AReq} {h : HState} {e : Run.Env}
+    (hr : FRd K1 K2 W r h e) (hb : Ben e.tr)
+    {fuel : Nat} (hfu : K1.cap / 16 + 6 * e.tr.input.length + wcost W.data.length + 24 ≤ fuel) :
+    HOut W (FRd K1 K2 W) e
+      (handlerPoll fuel r h e) := by
+  have hfin2 : K2.final = true := by simp [RCtx.final, hf.e2, nextInputStream, RT.stdin]
+  -- the second `readAll` and what follows
+  have second : ∀ (fuel : Nat) (r : AReq) (sub : HSub) (e : Run.Env),
+      (∃ dO, RSt K2 W.L1 K1.O r e.mutex e.tr (accOf sub) dO) → rEvent K1.C ∈ e.tr.events → Ben e.tr →
+      K2.cap / 32 + 3 * e.tr.input.length + wcost W.data.length + 12 ≤ fuel →
+      HOut W (FRd K1 K2 W) e
+        (handlerPoll fuel r ⟨.readAll :: oscript W.data W.st, sub, [], true⟩ e) := by
+    intro fuel r sub e ⟨dO, hs⟩ hev1 hb hfu
+    obtain ⟨G0, hi0⟩ := hs.inv
+    have hrl := hi0.rem_le hK2
+    rcases readAll_run hK2 (L := W.L1) (P := K1.O) (oscript W.data W.st) [] true
+        (2 * ((K2.C.length - (accOf sub).length) / 64) + 2 * e.tr.input.length + 2) fuel r sub e dO 1
+        (by omega) (by omega) (fun h => by omega) hb hs with
+      ⟨r', acc', e', dO', d1, d3, d5, d6, d8, d9⟩ |
+      ⟨r', e', f', d1, d2, d3, dl, dm, d4, d5, d6, dw, d8, d9⟩
+    · rw [d1]
+      exact ⟨d6, d5, Or.inl ⟨rfl, d8, d9, Or.inl (Or.inr ⟨⟨rfl, rfl, rfl, ⟨dO', d3⟩⟩, d6.mem_events hev1⟩)⟩⟩
+    · rw [d1]
+      obtain ⟨G1, hi1⟩ := d3.inv
+      obtain ⟨O1, hlog1, hlog2⟩ := d3.log
+      have hs1 : TStep e.tr (e'.ev (rEvent K2.C)).tr := d9.trans (TStep.ev _ (isHS_rEvent _))
+      have hfin : REnd W.N r' (e'.ev (rEvent K2.C)).tr.input := by
+        rw [hN]
+        exact REnd.of_read hi1 (dw hfin2) dl d4 d5 d6
+      obtain ⟨q1, q2, q3⟩ := open_phase (W := W) (Rd := FRd K1 K2 W) (O1 := O1) hfin
+        (show (e'.ev (rEvent K2.C)).mutex = none from dm)
+        (show (e'.tr.ev (rEvent K2.C)).wlog = W.L1 ++ O1 by rw [Transport.ev_wlog, hlog1])
+        (by rw [hOt]; exact hlog2)
+        (by intro s hs
+            rw [hrevs] at hs
+            show s ∈ e'.tr.events ++ [rEvent K2.C]
+            rcases List.mem_cons.1 hs with rfl | hs
+            · exact List.mem_append_left _ (d9.mem_events hev1)
+            · rw [List.mem_singleton.1 hs]; simp)
+        (hb.step hs1) (fuel := f') (by omega)
+      refine ⟨hs1.trans q1, q2.trans d8, ?_⟩
+      rcases q3 with ⟨a1, a2, a3, a4⟩ | a
+      · exact Or.inl ⟨a1, a2, by have := hs1.ans_le; omega, a4⟩
+      · exact Or.inr a
+  obtain ⟨ops, sub, ws, pr⟩ := h
+  rcases hr with hr | ⟨hr, hev1⟩
+  · obtain ⟨hops, hws, hpr, ⟨dO, hs⟩⟩ := hr
+    simp only at hops hpr hws hs
+    subst hops hpr hws
+    obtain ⟨G0, hi0⟩ := hs.inv
+    have hrl := hi0.rem_le hK1
+    rcases readAll_run hK1 (L := W.L1) (P := []) (.setStream 8 :: .readAll :: oscript W.data W.st) [] true
+        (2 * ((K1.C.length - (accOf sub).length) / 64) + 2 * e.tr.input.length + 2) fuel r sub e dO 1
+        (by omega) (by omega) (fun h => by omega) hb hs with
+      ⟨r', acc', e', dO', d1, d3, d5, d6, d8, d9⟩ |
+      ⟨r', e', f', d1, d2, d3, dl, dm, d4, d5, d6, dw, d8, d9⟩
+    · rw [d1]
+      exact ⟨d6, d5, Or.inl ⟨rfl, d8, d9, Or.inl (Or.inl ⟨rfl, rfl, rfl, ⟨dO', d3⟩⟩)⟩⟩
+    · rw [d1]
+      obtain ⟨f2, rfl⟩ : ∃ f2, f' = f2 + 1 := ⟨f' - 1, by omega⟩
+      rw [hp_setStream]
+      obtain ⟨r2, hset, hlk2, hs2⟩ := switch_stream hf d3 d4 d5 d6
+      have hset' : r'.setStream 8 = some r2 := hset
+      rw [hset']
+      simp only
+      have hs1 : TStep e.tr ((e'.ev (rEvent K1.C)).ev "s=ok").tr :=
+        (d9.trans (TStep.ev _ (isHS_rEvent _))).trans (TStep.ev _ (by decide))
+      have hinle := d9.tle.input_len
+      obtain ⟨q1, q2, q3⟩ := second f2 r2 .fresh ((e'.ev (rEvent K1.C)).ev "s=ok")
+        ⟨[], by
+          have : RSt K2 W.L1 ([] ++ K1.O) r2 e'.mutex e'.tr [] [] := hs2
+          rw [List.nil_append] at this
+          exact ⟨this.inv, this.lk, this.mx, this.log⟩⟩
+        (by show rEvent K1.C ∈ (e'.tr.events ++ [rEvent K1.C]) ++ ["s=ok"]; simp)
+        (hb.step hs1)
+        (by show K2.cap / 32 + 3 * e'.tr.input.length + wcost W.data.length + 12 ≤ f2
+            rw [hf.cap]; omega)
+      refine ⟨hs1.trans q1, q2.trans d8, ?_⟩
+      rcases q3 with ⟨a1, a2, a3, a4⟩ | a
+      · exact Or.inl ⟨a1, a2, by have := hs1.ans_le; omega, a4⟩
+      · exact Or.inr a
+  · obtain ⟨hops, hws, hpr, hrem⟩ := hr
+    simp only at hops hpr hws hrem
+    subst hops hpr hws
+    exact second fuel r sub e hrem hev1 hb (by rw [hf.cap]; omega)
 
 end Fcgi.E2E
